@@ -412,6 +412,13 @@ func (app *App) stateManager() appState {
 		return stateManager
 	}
 
+	if clusterState[master] == nil || clusterStateDcs[master] == nil {
+		// the recorded master is not (any more) among the registered cluster hosts: every step
+		// below indexes the cluster state by it, so there is nothing safe to do until it is fixed
+		app.logger.Error().Msgf("recorded master %s is not a registered cluster host, doing nothing", master)
+		return stateManager
+	}
+
 	// activeNodes are master + alive running replicas
 	activeNodes, err := app.GetActiveNodes()
 	if err != nil {
@@ -2069,6 +2076,11 @@ func (app *App) findBestStreamFrom(node *mysql.Node, clusterState map[string]*no
 		}
 
 		candidateState := clusterState[streamFrom]
+		if candidateState == nil {
+			// stream_from names a host that is not a registered cluster host (any more)
+			app.logger.Error().Msgf("repair: stream_from host %s of %s is not a registered cluster host. Fallback to master", streamFrom, host)
+			return master
+		}
 
 		// if cascade node is streaming now from configured host - do nothing
 		if len(loopDetector) == 1 {
